@@ -146,9 +146,15 @@ def run_binnify(ctx, shard):
         b = int([1, 2, 3, 5, 7, 10, 100, 1000, 4096, 10**4, 10**5, 10**6, 2 * 10**6, 5 * 10**6, 10**7,
                  10**6, 25 * 10**5][int(rng.integers(17))])
         lengths = []
+        big = False
         for _ in range(nch):
             r = rng.random()
-            if r < 0.08:
+            if b >= 10**6 and rng.random() < 0.1:
+                # sequences at and beyond the 32-bit coordinate boundary (lungfish / axolotl scale assemblies)
+                lengths.append(int([2**31 - 1, 2**31, 2**31 + 1, int(rng.integers(2**31 - 2 * b, 2**32)),
+                                    int(rng.integers(2**32, 2**33))][int(rng.integers(5))]))
+                big = True
+            elif r < 0.08:
                 lengths.append(int(rng.integers(1, 12)))              # contig of a few bp, whatever the width
             elif r < 0.2:
                 lengths.append(int(rng.integers(1, b + 1)))          # <= b
@@ -166,6 +172,8 @@ def run_binnify(ctx, shard):
             continue
         with ctx.case(cid, {"chromsizes": list(zip(names, lengths)), "binsize": b}) as c:
             cs = pd.Series(lengths, index=names)
+            if big:
+                c.feature("binnify:length>=2^31")
             out = util.binnify(cs, b)
             want = model.ref_binnify(list(zip(names, lengths)), b)
             got = list(zip(out["chrom"].astype(str).tolist(), out["start"].tolist(), out["end"].tolist()))
